@@ -122,6 +122,16 @@ def make_renamings(r: random.Random, names: list[str]) -> list[tuple[str, dict[s
 	shuffled = pool[:]
 	r.shuffle(shuffled)
 	add('prefix-related', dict(zip(names, shuffled)))
+	# every name a proper suffix (resp. prefix) of the next one, in both orders of the identifiers
+	for label, order in (('suffix-chain', names), ('suffix-chain-reversed', names[::-1])):
+		m: dict[str, str] = {}
+		cur = 'zq'
+		for i, n in enumerate(order):
+			cur = f'{"abcdefghij"[i % 10]}{i % 7}_' + cur if i else cur
+			m[n] = cur
+		if max(len(v) for v in m.values()) < 200:
+			add(label, m)
+			add(label.replace('suffix', 'prefix'), {k: v[::-1] if not v[::-1][0].isdigit() else 'p' + v[::-1] for k, v in m.items()})
 	add('double-underscore', {n: (f'zq__{n}' if i % 2 else f'{n}__init__') for i, n in enumerate(names)})
 	add('self-cls-super', {n: ['self', 'cls', 'super', 'selfself'][i % 4] + n for i, n in enumerate(names)})
 	tags = ['name', 'var', 'block', 'class_def', 'function_def', 'getattr', 'funccall', 'assign', 'file_input', 'typedparam']
